@@ -277,6 +277,7 @@ def case_fit(case):
     scheme = Scheme(model=base.model, parameters=params, data=base.data, optimization_method=method,
                     maximum_number_function_evaluations=case.get("nfev", 8), add_svd=False)  # fmt: skip
     init = {p.label: (float(p.value), p.vary, p.expression) for p in params.all()}
+    init_options = {p.label: (p.minimum, p.maximum, p.vary, p.non_negative, p.expression) for p in params.all()}
     vs = []
     seen = []
     opt = Optimizer(scheme, verbose=False, raise_exception=True)
@@ -313,6 +314,11 @@ def case_fit(case):
         if float(p.value) != init[p.label][0] and not (math.isnan(float(p.value)) and math.isnan(init[p.label][0])):
             vs.append(V("callers-parameter-changed-by-the-fit", label=p.label, before=init[p.label][0], after=float(p.value),
                         expression=p.expression))  # fmt: skip
+            break
+    for p in params.all():
+        now = (p.minimum, p.maximum, p.vary, p.non_negative, p.expression)
+        if now != init_options[p.label]:
+            vs.append(V("callers-parameter-options-changed-by-the-fit", label=p.label, before=list(map(str, init_options[p.label])), after=list(map(str, now))))
             break
     free = [p.label for p in params.all() if p.vary and p.expression is None]
     if list(result.free_parameter_labels) != free:
